@@ -325,3 +325,36 @@ def vGt (a b : V) : Bool := valueCmp a b == some .gt
 def vGe (a b : V) : Bool := match valueCmp a b with | some .gt | some .eq => true | _ => false
 
 end Liquid
+
+namespace Liquid
+
+/-- structural identity of values as the line protocol sees them (floats by bit pattern;
+`disp` texts ignored) -/
+def Sc.same : Sc → Sc → Bool
+  | .int a, .int b => a == b
+  | .flt a, .flt b => a.bits == b.bits
+  | .bool a, .bool b => a == b
+  | .dt a, .dt b => a.loc == b.loc && a.off == b.off
+  | .date a, .date b => a.days == b.days
+  | .str a, .str b => a == b
+  | _, _ => false
+
+mutual
+def V.same : V → V → Bool
+  | .nil, .nil => true
+  | .st a, .st b => a == b
+  | .sc a, .sc b => a.same b
+  | .arr a, .arr b => sameL a b
+  | .obj a, .obj b => sameO a b
+  | _, _ => false
+def sameL : List V → List V → Bool
+  | [], [] => true
+  | x :: xs, y :: ys => x.same y && sameL xs ys
+  | _, _ => false
+def sameO : List (Str × V) → List (Str × V) → Bool
+  | [], [] => true
+  | (k, x) :: xs, (k', y) :: ys => k == k' && x.same y && sameO xs ys
+  | _, _ => false
+end
+
+end Liquid
